@@ -68,17 +68,67 @@ def nat_expr(n):
     raise Unsupported("the verdict depends on " + str(n.get("name") or k))
 
 
-def verdict_of(funcs, name):
-    found = []
+def verdict_of(funcs, name, depth=0):
+    """The condition under which the function returns EXIT_SUCCESS (0), as Lean Bool text. Follows the straight-line code of the
+    function: boolean locals assigned from the reporter's totals, `return cond ? EXIT_SUCCESS : EXIT_FAILURE`, `return local`,
+    and a return through a helper of the same file (the helper is read the same way)."""
+    if depth > 3 or name not in funcs: raise Unsupported(f"cannot follow {name}")
+    env = {}
 
-    def v(n):
-        if n.get("kind") == "BinaryOperator" and n.get("opcode") == "=" and strip(n["inner"][0]).get("referencedDecl", {}).get("name") == "success":
-            found.append(n["inner"][1])
-        if n.get("kind") == "VarDecl" and n.get("name") == "success" and n.get("inner"):
-            found.append(n["inner"][-1])
-    walk(funcs[name], v)
-    if len(found) != 1: raise Unsupported(f"{len(found)} assignments to `success` in {name}")
-    return bool_expr(found[0])
+    def value(n):
+        n = strip(n)
+        if n.get("kind") == "DeclRefExpr" and n.get("referencedDecl", {}).get("name") in env:
+            return env[n["referencedDecl"]["name"]]
+        return bool_expr_env(n, env)
+
+    result = []
+
+    def stmts(n):
+        for c in n.get("inner", []) or []:
+            k = c.get("kind")
+            if k == "CompoundStmt": stmts(c)
+            elif k == "DeclStmt":
+                for v in c.get("inner", []):
+                    if v.get("kind") == "VarDecl" and v.get("inner"):
+                        try: env[v["name"]] = value(v["inner"][-1])
+                        except Unsupported: pass
+            elif k == "BinaryOperator" and c.get("opcode") == "=":
+                lhs = strip(c["inner"][0])
+                if lhs.get("kind") == "DeclRefExpr":
+                    try: env[lhs["referencedDecl"]["name"]] = value(c["inner"][1])
+                    except Unsupported: env.pop(lhs["referencedDecl"]["name"], None)
+            elif k == "ReturnStmt" and c.get("inner"):
+                e = strip(c["inner"][0])
+                if e.get("kind") == "ConditionalOperator":
+                    cond, a, b = e["inner"]
+                    a, b = strip(a), strip(b)
+                    if a.get("kind") == "IntegerLiteral" and b.get("kind") == "IntegerLiteral":
+                        av, bv = int(a["value"]), int(b["value"])
+                        if av == 0 and bv != 0: result.append(value(cond)); continue
+                        if av != 0 and bv == 0: result.append(f"(!{value(cond)})"); continue
+                    raise Unsupported("return expression of " + name)
+                if e.get("kind") == "CallExpr":
+                    callee = strip(e["inner"][0]).get("referencedDecl", {}).get("name")
+                    result.append(verdict_of(funcs, callee, depth + 1)); continue
+                if e.get("kind") == "DeclRefExpr" and e.get("referencedDecl", {}).get("name") in env:
+                    result.append(f"(!{env[e['referencedDecl']['name']]})"); continue      # a status variable: 0 is success
+                raise Unsupported("return expression of " + name)
+    body = [c for c in funcs[name]["inner"] if c.get("kind") == "CompoundStmt"][0]
+    stmts(body)
+    if len(result) != 1: raise Unsupported(f"{len(result)} return statements read in {name}")
+    return result[0]
+
+
+def bool_expr_env(n, env):
+    n = strip(n)
+    if n.get("kind") == "DeclRefExpr" and n.get("referencedDecl", {}).get("name") in env:
+        return env[n["referencedDecl"]["name"]]
+    k = n.get("kind")
+    if k == "BinaryOperator" and n.get("opcode") in ("&&", "||"):
+        return f"({bool_expr_env(n['inner'][0], env)} {n['opcode']} {bool_expr_env(n['inner'][1], env)})"
+    if k == "UnaryOperator" and n.get("opcode") == "!":
+        return f"(!{bool_expr_env(n['inner'][0], env)})"
+    return bool_expr(n)
 
 
 def folding_of(funcs, name):
